@@ -21,6 +21,10 @@ var reType = regexp.MustCompile(`D\d+T(\d+)`)
 var reValue = regexp.MustCompile(`"P(\d+)\.0\(\)"`)
 var reErr = regexp.MustCompile(`^err\d*$`)
 
+// name of the context parameter of the function being analysed (the derived errgroup context is
+// assigned to the parameter itself, so waits select on that name)
+var curCtx = "ctx"
+
 type call struct {
 	head   string
 	args   []string
@@ -101,13 +105,13 @@ func oneWait(s ast.Stmt) (string, string, bool) {
 			if ce, ok := u.X.(*ast.CallExpr); ok {
 				if sel, ok := ce.Fun.(*ast.SelectorExpr); ok && sel.Sel.Name == "Done" {
 					kind = "W"
-					if identName(sel.X) != "ctx" {
+					if identName(sel.X) != curCtx {
 						kind = "W[" + identName(sel.X) + "]"
 					}
 					okRet := false
 					for _, bs := range cc.Body {
 						if rs, ok := bs.(*ast.ReturnStmt); ok && len(rs.Results) > 0 {
-							if exprString(rs.Results[len(rs.Results)-1]) == "ctx.Err(...)" {
+							if exprString(rs.Results[len(rs.Results)-1]) == curCtx+".Err(...)" {
 								okRet = true
 							}
 						}
@@ -312,6 +316,10 @@ func main() {
 					}
 				}
 			}
+			curCtx = ctxName
+			if curCtx == "" {
+				curCtx = "ctx"
+			}
 			hasErr := fd.Type.Results != nil && len(fd.Type.Results.List) == 2
 			chanOf := map[string]string{}
 			var mainStmts []ast.Stmt
@@ -355,8 +363,8 @@ func main() {
 					if ce, ok := as.Rhs[0].(*ast.CallExpr); ok && len(ce.Args) == 1 {
 						egCtx = identName(ce.Args[0])
 					}
-					if identName(as.Lhs[1]) != "ctx" {
-						odd = append(odd, "errgroup-context-named-"+identName(as.Lhs[1]))
+					if identName(as.Lhs[1]) != ctxName {
+						odd = append(odd, "errgroup-context-assigned-to-"+identName(as.Lhs[1])+"-not-the-parameter")
 					}
 					continue
 				}
@@ -475,7 +483,7 @@ func main() {
 				eg = "none"
 			}
 			sort.Strings(odd)
-			line := fmt.Sprintf("OK async=%v err=%v args=[%s] main=[%s] go=[%s] ret=%s egwait=%s", ctxName != "", hasErr,
+			line := fmt.Sprintf("OK err=%v args=[%s] main=[%s] go=[%s] ret=%s egwait=%s", hasErr,
 				strings.Join(argTys, ", "), thr(mainT), strings.Join(gs, " | "), rv, eg)
 			if len(odd) > 0 {
 				line += " odd=" + strings.Join(odd, ",")
